@@ -179,7 +179,8 @@ def main():
                     continue
                 if kf and msg_filter is not None:
                     continue          # a listed finding of the property that owns this shared stream
-                if len(violations) < 5:
+                n_oracle = sum(1 for v in violations if v[1].get("kind") == "oracle" and v[1].get("stream") == sname)
+                if n_oracle < 5:
                     violations.append((msg, {"kind": "oracle", "stream": sname, "case": common.canon(c),
                                              "impl": common.canon(obs), "detail": msg}, True))
             for t in stream.tags(c, obs):
